@@ -407,6 +407,20 @@ def blocks_that_do_not_compile(unit, diags):
     return out
 
 
+def aids_that_do_not_compile(unit, diags):
+    """(fn, key) of proof aids inside which the compiler reports an error (unknown name, type error)"""
+    out = set()
+    for d in diags:
+        if d.get('level') != 'error' or not (d.get('code') or {}).get('code'):
+            continue
+        prim = next((s_ for s_ in d.get('spans', []) if s_.get('is_primary')), None)
+        c = unit.chunk_at(prim['byte_start']) if prim else None
+        org = c.origin if c else {}
+        if org.get('k') == 'clause' and org.get('section') in ('hint', 'invariant') and org.get('key') is not None:
+            out.add((org.get('fn'), org.get('key')))
+    return out
+
+
 def aid_renames_from(unit, diags):
     """E0425 `cannot find value X` inside a proof aid, for which the compiler suggests `self.X`: {X: 'self.X'}"""
     out = {}
@@ -433,6 +447,7 @@ def aid_renames_from(unit, diags):
 AID_RENAMES = {}
 INLINE_FLIP = {}
 SKIP_BLOCKS = {}
+DROP_AIDS = {}
 
 
 def build(name, inline=()):
@@ -442,6 +457,10 @@ def build(name, inline=()):
     unit.aid_renames = dict(AID_RENAMES.get(name, {}))
     unit.inline_flip = INLINE_FLIP.get(name, False)
     unit.skip_blocks = set(SKIP_BLOCKS.get(name, ()))
+    if not getattr(unit, 'drop_aids', None):
+        unit.drop_aids = set(DROP_AIDS.get(name, ()))
+    else:
+        unit.drop_aids = set(unit.drop_aids) | set(DROP_AIDS.get(name, ()))
     extract.process_template(unit, os.path.join(CONTRACTS, name + '.vrs'), PRELUDE)
     # per-lemma property tags: `proof fn name(..) //#C10,C02`
     for c in unit.chunks:
@@ -463,7 +482,11 @@ def build_late(name, inline=(), drop_aids=(), late=True):
     unit.aid_renames = dict(AID_RENAMES.get(name, {}))
     unit.inline_flip = INLINE_FLIP.get(name, False)
     unit.skip_blocks = set(SKIP_BLOCKS.get(name, ()))
-    unit.drop_aids = set(drop_aids)
+    if not getattr(unit, 'drop_aids', None):
+        unit.drop_aids = set(DROP_AIDS.get(name, ()))
+    else:
+        unit.drop_aids = set(unit.drop_aids) | set(DROP_AIDS.get(name, ()))
+    unit.drop_aids = set(drop_aids) | set(DROP_AIDS.get(name, ()))
     extract.process_template(unit, os.path.join(CONTRACTS, name + '.vrs'), PRELUDE)
     for c in unit.chunks:
         if c.origin['k'] == 'tmpl':
@@ -485,6 +508,10 @@ def build_probe(name, inline=()):
     unit.aid_renames = dict(AID_RENAMES.get(name, {}))
     unit.inline_flip = INLINE_FLIP.get(name, False)
     unit.skip_blocks = set(SKIP_BLOCKS.get(name, ()))
+    if not getattr(unit, 'drop_aids', None):
+        unit.drop_aids = set(DROP_AIDS.get(name, ()))
+    else:
+        unit.drop_aids = set(unit.drop_aids) | set(DROP_AIDS.get(name, ()))
     extract.process_template(unit, os.path.join(CONTRACTS, name + '.vrs'), PRELUDE)
     data = unit.finish()
     return unit, data
@@ -507,6 +534,12 @@ def run_unit(name, tier, want_probe=True):
                 # an inlined helper whose receiver binding has the wrong reference depth (the receiver variable was taken to
                 # hold a reference but names a place, or the other way round): the other reading is tried once
                 INLINE_FLIP[name] = True
+                unit, data = build(name, inline)
+                continue
+            da = aids_that_do_not_compile(unit, pre['diags'])
+            if da and not da <= set(DROP_AIDS.get(name, ())):
+                # a proof aid that no longer compiles (it names a loop variable or local of code that is gone) is left out
+                DROP_AIDS[name] = set(DROP_AIDS.get(name, ())) | da
                 unit, data = build(name, inline)
                 continue
             sk = blocks_that_do_not_compile(unit, pre['diags'])
